@@ -46,13 +46,12 @@ class Ctx:
     def sqrt(self, x):
         if not n.is_sym(x):
             if self.symbolic:
-                fr = Fraction(x)
-                a, b = math.isqrt(fr.numerator), math.isqrt(fr.denominator)
-                if fr >= 0 and a * a == fr.numerator and b * b == fr.denominator:
-                    return Fraction(a, b)
-                name = ratfn.root_of(ratfn.Poly.const(fr))
+                coef, m = symx.const_root_parts(Fraction(x))
+                if m <= 1:
+                    return coef * m
+                name = ratfn.root_of(ratfn.Poly.const(m))
                 self._use(name)
-                return RatFn.var(name)
+                return n.N(RatFn.var(name) * RatFn.const(coef))
             return Fraction(math.sqrt(float(x)))
         if not x.den:
             name = ratfn.root_of(x.num)
